@@ -26,6 +26,9 @@ func (cc *CheckCtx) runMono(ms monoStage) {
 		cc.Notes = append(cc.Notes, fmt.Sprintf("stage %s (%s) is part of the thorough tier only", ms.Name, ms.Space))
 		return
 	}
+	if ms.Tier == "quick" && cc.Tier == "thorough" {
+		return // subsumed by the exhaustive stage of the thorough tier
+	}
 	st := stage{Name: ms.Name, Pkg: ms.Pkg, Func: ms.Func, Opts: ms.Opts}
 	frA, scA := cc.execStage(st, "", 0)
 	frB, scB := cc.execStage(st, "_b", 100000)
@@ -95,6 +98,10 @@ func (cc *CheckCtx) runMono(ms monoStage) {
 
 // replayPair runs the real function on both objects of a pair (when the pair fixes whole objects).
 func (cc *CheckCtx) replayPair(frA, frB *FuncRun, in CaseInst, r *ObResult) {
+	cc.replayPair2(frA, frB, in, in, r)
+}
+
+func (cc *CheckCtx) replayPair2(frA, frB *FuncRun, inA, in CaseInst, r *ObResult) {
 	defer func() {
 		if rec := recover(); rec != nil {
 			r.Replay = &ReplayInfo{Note: fmt.Sprintf("replay not possible: %v", rec)}
@@ -103,9 +110,13 @@ func (cc *CheckCtx) replayPair(frA, frB *FuncRun, in CaseInst, r *ObResult) {
 	info := &ReplayInfo{Inputs: map[string]interface{}{"pair": in.Label}}
 	r.Replay = info
 	var obs []map[string]interface{}
-	for _, fr := range []*FuncRun{frA, frB} {
+	for k, fr := range []*FuncRun{frA, frB} {
 		sub := &ObResult{}
-		cc.replayInstance(fr, in, sub)
+		if k == 0 {
+			cc.replayInstance(fr, inA, sub)
+		} else {
+			cc.replayInstance(fr, in, sub)
+		}
 		if sub.Replay == nil || sub.Replay.Observed == nil {
 			info.Note = "the pair does not fix whole objects (cut stage); no direct replay"
 			return
@@ -207,6 +218,10 @@ func mergeSub(a, b map[*Term]*Term) map[*Term]*Term {
 
 // objectPairs: all classes over 'metrics' x one severity step in one of them.
 func objectPairs(frA, frB *FuncRun, sc *stageCtx, metrics []string) []CaseInst {
+	return objectPairsF(frA, frB, sc, metrics, nil)
+}
+
+func objectPairsF(frA, frB *FuncRun, sc *stageCtx, metrics []string, keep func(codes map[string]int) bool) []CaseInst {
 	symsA, symsB := receiverSyms(frA), receiverSyms(frB)
 	var order []string
 	for _, f := range sc.rp.Fields {
@@ -214,6 +229,9 @@ func objectPairs(frA, frB *FuncRun, sc *stageCtx, metrics []string) []CaseInst {
 	}
 	var out []CaseInst
 	enumCodes(sc.rp, metrics, func(codes map[string]int) {
+		if keep != nil && !keep(codes) {
+			return
+		}
 		for _, st := range severitySteps(sc.spec, sc.rp, metrics, codes) {
 			sub := mergeSub(objSub(symsA, packObject(sc.rp, codes)), objSub(symsB, packObject(sc.rp, st.Codes)))
 			out = append(out, CaseInst{Sub: sub, Label: objLabel(sc.rp, codes, order) + "  ->  " + st.M + ":" + sc.rp.Field(st.M).Codes[st.Codes[st.M]]})
@@ -333,40 +351,53 @@ func monoStages(cc *CheckCtx) []monoStage {
 			insts := cutPairs(frA, frB, scA, v3Temporal, ca, cb, specApp("envInner31K", frA), specApp("envInner31K", frB), 0, 100, false)
 			return []CaseGoal{leqGoal("31", "(CVSS31).EnvironmentalScore", "more_severe_not_lower", resultTerm(frA), resultTerm(frB))}, insts
 		}})
-	ms = append(ms, monoStage{Name: "inner-stage-steps", Pkg: "31", Func: "(CVSS31).EnvironmentalScore", Opts: RunOpts{OnCall: cutHook}, Tier: "thorough",
-		Space: "165888 effective classes (8 effective metrics x CR,IR,AR) x one-step increases: zero-impact flag and inner Roundup value",
-		Build: func(frA, frB *FuncRun, scA, scB *stageCtx) ([]CaseGoal, []CaseInst) {
-			metrics := append(append([]string{}, v3Base...), "CR", "IR", "AR")
-			insts := objectPairs(frA, frB, scA, metrics)
-			five := tenthOf(50)
-			inner := func(sc *stageCtx) *Term {
-				var t *Term
-				for i := len(sc.calls["roundup"]) - 1; i >= 0; i-- {
-					c := sc.calls["roundup"][i]
-					if _, ok := c.sub.(*Term); !ok {
-						continue
-					}
-					if t == nil {
-						t = c.res.(*Term)
-					} else {
-						t = Ite(c.pc, c.res.(*Term), t)
+	for _, variant := range []struct{ name, tier, space string }{
+		{"inner-stage-steps[equal requirements]", "quick", "7776 effective classes (8 effective metrics x CR=IR=AR in {L,M,H}; the thorough tier covers all 165888) x one-step increases of any of the 11 metrics: zero-impact flag and inner Roundup value"},
+		{"inner-stage-steps", "thorough", "165888 effective classes (8 effective metrics x CR,IR,AR) x one-step increases: zero-impact flag and inner Roundup value"},
+	} {
+		variant := variant
+		ms = append(ms, monoStage{Name: variant.name, Pkg: "31", Func: "(CVSS31).EnvironmentalScore", Opts: RunOpts{OnCall: cutHook}, Tier: variant.tier,
+			Space: variant.space,
+			Build: func(frA, frB *FuncRun, scA, scB *stageCtx) ([]CaseGoal, []CaseInst) {
+				metrics := append(append([]string{}, v3Base...), "CR", "IR", "AR")
+				var keep func(map[string]int) bool
+				if variant.tier == "quick" {
+					keep = func(codes map[string]int) bool {
+						val := func(m string) string { return scA.rp.Field(m).Codes[codes[m]] }
+						return val("CR") == val("IR") && val("IR") == val("AR") && val("CR") != "X"
 					}
 				}
-				return t
-			}
-			for i := range insts {
-				for _, c := range append(callSyms(scA, "roundup", true), callSyms(scB, "roundup", true)...) {
-					insts[i].Sub[c] = five
+				insts := objectPairsF(frA, frB, scA, metrics, keep)
+				five := tenthOf(50)
+				inner := func(sc *stageCtx) *Term {
+					var t *Term
+					for i := len(sc.calls["roundup"]) - 1; i >= 0; i-- {
+						c := sc.calls["roundup"][i]
+						if _, ok := c.sub.(*Term); !ok {
+							continue
+						}
+						if t == nil {
+							t = c.res.(*Term)
+						} else {
+							t = Ite(c.pc, c.res.(*Term), t)
+						}
+					}
+					return t
 				}
-			}
-			zA := App("fp.isZero", SBool, resultTerm(frA))
-			zB := App("fp.isZero", SBool, resultTerm(frB))
-			goals := []CaseGoal{
-				{Name: "gocvss31.(CVSS31).EnvironmentalScore/mono/zero_impact_only_for_less_severe", Kind: "mono", Cond: Implies(zB, zA)},
-				{Name: "gocvss31.(CVSS31).EnvironmentalScore/mono/inner_value_not_lower", Kind: "mono", Cond: Implies(Not(zA), App("fp.leq", SBool, inner(scA), inner(scB)))},
-			}
-			return goals, insts
-		}})
+				for i := range insts {
+					for _, c := range append(callSyms(scA, "roundup", true), callSyms(scB, "roundup", true)...) {
+						insts[i].Sub[c] = five
+					}
+				}
+				zA := App("fp.isZero", SBool, resultTerm(frA))
+				zB := App("fp.isZero", SBool, resultTerm(frB))
+				goals := []CaseGoal{
+					{Name: "gocvss31.(CVSS31).EnvironmentalScore/mono/zero_impact_only_for_less_severe", Kind: "mono", Cond: Implies(zB, zA)},
+					{Name: "gocvss31.(CVSS31).EnvironmentalScore/mono/inner_value_not_lower", Kind: "mono", Cond: Implies(Not(zA), App("fp.leq", SBool, inner(scA), inner(scB)))},
+				}
+				return goals, insts
+			}})
+	}
 	return ms
 }
 
@@ -390,5 +421,12 @@ func init() {
 }
 
 var c12v4 = func(cc *CheckCtx) {
-	cc.Notes = append(cc.Notes, "v4.0 Score is not yet part of this check in this build")
+	cc.runMono40()
+	// the abstraction "Score is a function of (MacroVector, distances)" rests on C04's cuts and on
+	// macroVector's contract: re-discharged here because this check assumes them
+	cc.runScore40(`^$`, true)
+	cc.runTask(Task{Pkg: "40", Func: "(CVSS40).macroVector", Match: `/post/eq\d$|/safety/`})
+	for _, l := range score40Lemmas(cc.W, cc.Tier) {
+		cc.runLemma(l)
+	}
 }
